@@ -329,6 +329,11 @@ fn main() {
                 fs::write(proj.join("src/validation/schemas.ts"), "// hand written\nexport const x = 1;\n").map_err(|e| e.to_string())?;
                 let _ = std::os::unix::fs::symlink("../validation/schemas.ts", out.join("schemas.ts"));
                 let _ = std::os::unix::fs::symlink(proj.join("src/validation/schemas.ts"), out.join("bindings.ts"));
+                // names this run writes, standing there as links: a symbolic link to a hand-written module, a hard link to another one
+                fs::write(proj.join("src/main_entry.ts"), "// hand written entry\n").map_err(|e| e.to_string())?;
+                fs::write(proj.join("src/api.ts"), "// hand written api\n").map_err(|e| e.to_string())?;
+                let _ = std::os::unix::fs::symlink("../main_entry.ts", out.join("index.ts"));
+                let _ = fs::hard_link(proj.join("src/api.ts"), out.join("commands.ts"));
             }
             // a cache file from elsewhere (merged, edited): whatever it lists, only reserved names may be removed
             fs::write(out.join(".typecache"), "{\n  \"version\": 1,\n  \"commands_hash\": \"0\",\n  \"structs_hash\": \"0\",\n  \"config_hash\": \"0\",\n  \"combined_hash\": \"0\",\n  \"generated_files\": [\"types.ts\", \"helpers.ts\", \"README.md\", \"notes/keep.txt\", \"../../src-tauri/src/lib.rs\", \"../../tauri.conf.json\"]\n}\n").map_err(|e| e.to_string())?;
@@ -348,6 +353,10 @@ fn main() {
             if fs::read_to_string(out.join("notes/keep.txt")).ok().as_deref() != Some("foreign notes/keep.txt") { return Err("notes/keep.txt changed".into()); }
             #[cfg(unix)]
             if fs::read_to_string(proj.join("src/validation/schemas.ts")).ok().as_deref() != Some("// hand written\nexport const x = 1;\n") { return Err("src/validation/schemas.ts (outside the output directory, the target of a stale symbolic link named schemas.ts) was modified or removed".into()); }
+            #[cfg(unix)]
+            for (f, text) in [("src/main_entry.ts", "// hand written entry\n"), ("src/api.ts", "// hand written api\n")] {
+                if fs::read_to_string(proj.join(f)).ok().as_deref() != Some(text) { return Err(format!("{} (outside the output directory, reached through a link under a generated name) was modified or removed", f)); }
+            }
             if fs::read_to_string(proj.join("tauri.conf.json")).unwrap_or_default() != conf_before { return Err("tauri.conf.json was modified".into()); }
             if fs::read_to_string(src.join("lib.rs")).unwrap_or_default() != src_before { return Err("a project source was modified".into()); }
             Ok(format!("{:?}", after.keys().filter(|k| !before.contains_key(*k)).collect::<Vec<_>>()))
